@@ -1178,6 +1178,8 @@ package bigbuff
 //@   # a result thunk, when given, is called exactly once with exactly what the function returned
 //@   ensures thunks : ret == nil ==> icalls("(reflect.Value).Call") == ite(args != nil, 1, 0) + ite(results != nil, 1, 0)
 //@   ensures valid_args : args != nil && rt_kind(rt_of(args)) != 19 ==> ret != nil
+//@   # completeness: nil or well-formed thunks (a non-nil func without mandatory input / a non-nil func) are accepted
+//@   ensures accepts : (args == nil || (rt_kind(rt_of(args)) == 19 && !rv_isnil(rv_of(args)) && rt_numin(rt_of(args)) == 0)) && (results == nil || (rt_kind(rt_of(results)) == 19 && !rv_isnil(rv_of(results)))) ==> ret == nil
 //@   ensures valid_results : results != nil && rt_kind(rt_of(results)) != 19 ==> ret != nil
 //@   at-call (callableValue).Call#0 handover : args != nil ==> arg1 == ilast("(reflect.Value).Call", 0)
 
